@@ -28,7 +28,8 @@ MC_Q = {"Modes": '{"client"}', "Responds": '{"sync"}', "Timeouts": "{FALSE}", "S
         "SLs": "{1, 2, 6, 7, 9}", "RHs": "{1, 2, 3, 8}", "RH2s": "{1}", "RBs": "{1, 2, 3, 4, 7}", "Dev": 0, "Sizes": "{1, 2, 5}",
         "MaxBodies": "{2, 1000000}"}
 GEN_Q = {"SLs": "{1, 2, 3, 6, 9}", "RHs": "{1, 2, 3, 14}", "RBs": "{1, 2, 3, 7}", "RH2s": "{1}", "BLANKs": "{1}", "GzIdx": "{3}"}
-GEN_T = {"SLs": "1..19", "RHs": "1..19", "RBs": "1..15", "RH2s": "1..9", "BLANKs": "{1, 2}", "GzIdx": "{1, 2, 3, 4}", "GzDrops": "{0, 1, 5, 9}"}
+GEN_T = {"SLs": "{1, 2, 3, 4, 5, 6, 7, 8, 9, 10, 13, 16}", "RHs": "{1, 2, 3, 4, 5, 6, 7, 8, 11, 12, 14, 18}", "RBs": "{1, 2, 3, 4, 5, 6, 7, 9, 12, 13}", "RH2s": "{1, 2, 3, 4, 5, 6, 7, 8, 9}", "BLANKs": "{1, 2}",
+         "GzIdx": "{1, 2, 3, 4}", "GzDrops": "{0, 1, 5, 9}", "GzKeeps": "{1, 5, 10, 11, 12, 15, 20}"}
 
 
 def record_random(args):
@@ -51,12 +52,12 @@ def run(ctx):
     mcq = dict(MC_Q)
     if not ctx.quick:
         mcq.update(SLs="{1, 2, 3, 4, 5, 6, 7, 8, 9, 10, 13}", RHs="{1, 2, 3, 4, 6, 7, 8, 12, 14, 15}", RBs="{1, 2, 3, 4, 5, 6, 7, 8, 9, 10, 13}",
-                   Sizes="{1, 2, 3, 4, 8}", MaxBodies="{0, 2, 3, 4, 1000000}")
+                   Sizes="{1, 2, 3, 4, 8}", MaxBodies="{0, 2, 3, 1000000}")
     H.mc(ctx, "MC_HttpReader", "MC_HttpReader.cfg", overrides=mcq)
     cases = H.gen_cases(ctx, GEN_Q if ctx.quick else GEN_T, cfg="GenC_HttpReader.cfg")
     H.replay_client(ctx, cases)
     ctx.cov["exhaustive"] = True
-    n = ctx.pick(200, 20000)
+    n = ctx.pick(200, 5000)
     traces = framework.pool_map(record_random, [(i + 1, ctx.seed * 1000003 + 808 + i) for i in range(n)])
     H.validate(ctx, traces, H.classify_client)
     ctx.cov["rule"] = ("%d (response wire, request method, decompress, limit) cases x {plain, streaming_callback} x {all single "
